@@ -84,7 +84,9 @@ class C01Oracle(Oracle):
             kind, val = name
             for n in self.truth[k]:
                 fk = W.field_kind(n)
-                if fk[0] == kind and abs(fk[1] - val) < 1e-9:
+                # verif uses a stored p<threshold>/q<quantile> column when its value is np.isclose to the
+                # requested one (data.py: np.isclose(input.thresholds, field.threshold))
+                if fk[0] == kind and np.isclose(fk[1], val):
                     return self.truth[k][n]
             return None
         return self.truth[k].get(name)
